@@ -1184,7 +1184,7 @@ func run(c *core.Ctx) {
 	desc := p.seqDesc(seq)
 	m := model(p, seq)
 	touched, usesStar := false, false
-	constrained := 0 // steps that carry a Before / After request
+	constrained, cSteps := 0, 0 // Before / After requests in the whole sequence, and calls carrying any
 	for _, s := range seq {
 		if s.Op != opRegister && int(s.Name) < userBase {
 			touched = true
@@ -1192,8 +1192,16 @@ func run(c *core.Ctx) {
 		if s.Bef == idStar || s.Aft == idStar {
 			usesStar = true
 		}
-		if s.Op == opRegister && (int(s.Bef) != none || int(s.Aft) != none) {
-			constrained++
+		if s.Op == opRegister {
+			if int(s.Bef) != none {
+				constrained++
+			}
+			if int(s.Aft) != none {
+				constrained++
+			}
+			if int(s.Bef) != none || int(s.Aft) != none {
+				cSteps++
+			}
 		}
 	}
 	c.Inc("pipeline_" + p.name)
@@ -1246,6 +1254,8 @@ func run(c *core.Ctx) {
 			// contradicts the other): a sequence with a single Before/After request is a class of its own
 			if constrained <= 1 {
 				cl += "/single-request"
+			} else if cSteps == 1 {
+				cl += "/single-step" // one call carries both a Before and an After request, no other call carries any
 			}
 			c.Inc("viol_" + mode + "_" + cl)
 			d := map[string]interface{}{"pipeline": p.name, "sequence": desc, "origin": origin, "observation_mode": mode,
